@@ -4,10 +4,12 @@ import (
 	"encoding/json"
 	"flag"
 	"fmt"
+	"golang.org/x/tools/go/ssa"
 	"os"
 	"path/filepath"
 	"sort"
 	"strings"
+	"sync"
 	"time"
 )
 
@@ -25,6 +27,8 @@ func main() {
 		code = cmdVerify(os.Args[2:])
 	case "list":
 		code = cmdList(os.Args[2:])
+	case "closure":
+		code = cmdClosure(os.Args[2:])
 	default:
 		fmt.Fprintln(os.Stderr, "unknown command", os.Args[1])
 		code = 2
@@ -123,8 +127,33 @@ func cmdVerify(args []string) int {
 	}
 	fmt.Printf("loaded %v in %.1fs\n", pats, time.Since(t0).Seconds())
 	bad := 0
-	for _, k := range sel {
-		rep := VerifyFunction(prog, cs, k, cs.ByKey[k], 4000)
+	reps := make([]*FuncReport, len(sel))
+	{
+		var wg sync.WaitGroup
+		sem := make(chan struct{}, 8)
+		for i, k := range sel {
+			wg.Add(1)
+			go func(i int, k string) {
+				defer wg.Done()
+				sem <- struct{}{}
+				defer func() { <-sem }()
+				reps[i] = VerifyFunction(prog, cs, k, cs.ByKey[k], 4000)
+			}(i, k)
+		}
+		wg.Wait()
+		var all []*Obligation
+		for _, r := range reps {
+			if r.Unsupported == "" && !r.Trusted {
+				all = append(all, r.Obls...)
+			}
+		}
+		if os.Getenv("GOVC_NO_FAILFAST") == "" {
+			noFailFast = true
+		}
+		SolveAll(all, *timeout, false, 8)
+	}
+	for i, k := range sel {
+		rep := reps[i]
 		if rep.Unsupported != "" {
 			fmt.Printf("%s: OUTSIDE SUBSET: %s\n", shortFn(k), rep.Unsupported)
 			bad++
@@ -134,7 +163,6 @@ func cmdVerify(args []string) int {
 			fmt.Printf("%s: trusted (%s)\n", shortFn(k), rep.TrustNote)
 			continue
 		}
-		SolveAll(rep.Obls, *timeout, false, 8)
 		groups := groupObls(rep.Obls)
 		fmt.Printf("%s: %d paths, %d queries, %d obligations, havocs=%d\n", shortFn(k), rep.Paths, len(rep.Obls), len(groups), len(rep.Havocs))
 		for _, h := range rep.Havocs {
@@ -260,8 +288,6 @@ func writeJSON(path string, v interface{}) error {
 	return os.WriteFile(path, append(data, '\n'), 0o644)
 }
 
-
-
 // addContractPkgs: keeper- and ante-level checks talk about several modules (ghost stores, preludes, interface
 // implementations), so as soon as a selected package is not a leaf `types` package every package that carries a
 // contract file is loaded.
@@ -284,4 +310,119 @@ func addContractPkgs(pkgSet map[string]bool, cs *ContractSet) {
 			pkgSet[repoModule+rel] = true
 		}
 	}
+}
+
+// calleeClosure: the contracted repository functions that the functions in sel call (transitively, through inlined
+// and uncontracted helpers and through the keeper interfaces declared with `implements`) and that are not in sel.
+// A caller is verified against its callees' contracts, so a property is decided by a check only if that check also
+// verifies those contracts against their bodies.
+func calleeClosure(prog *Program, cs *ContractSet, sel []string) []string {
+	inSel := map[string]bool{}
+	for _, k := range sel {
+		inSel[k] = true
+	}
+	work := append([]string(nil), sel...)
+	missing := map[string]bool{}
+	for len(work) > 0 {
+		k := work[len(work)-1]
+		work = work[:len(work)-1]
+		fn := prog.FindFunc(k)
+		if fn == nil {
+			continue
+		}
+		seenFn := map[*ssa.Function]bool{}
+		var visit func(f *ssa.Function, depth int)
+		visit = func(f *ssa.Function, depth int) {
+			if seenFn[f] || depth > 6 {
+				return
+			}
+			seenFn[f] = true
+			for _, c := range callsOf(f) {
+				keys := []string{c.callee}
+				if c.invoke {
+					keys = nil
+					for iface, conc := range cs.Impls {
+						if strings.HasPrefix(c.callee, "("+iface+").") {
+							keys = append(keys, "("+conc+")."+c.callee[len(iface)+3:])
+						}
+					}
+				}
+				for _, ck := range keys {
+					ct := cs.Lookup(ck)
+					if ct == nil {
+						if cf := prog.FindFunc(ck); cf != nil && cf.Pkg != nil && prog.isRepoPkg(cf.Pkg.Pkg.Path()) {
+							visit(cf, depth+1)
+						}
+						continue
+					}
+					if ct.Extern {
+						continue
+					}
+					if ct.Inline {
+						if cf := prog.FindFunc(ck); cf != nil {
+							visit(cf, depth+1)
+						}
+						continue
+					}
+					if ct.Trusted || inSel[ct.Key] {
+						continue
+					}
+					inSel[ct.Key] = true
+					missing[ct.Key] = true
+					work = append(work, ct.Key)
+				}
+			}
+			for _, af := range f.AnonFuncs {
+				visit(af, depth+1)
+			}
+		}
+		visit(fn, 0)
+	}
+	var ms []string
+	for k := range missing {
+		ms = append(ms, k)
+	}
+	sort.Strings(ms)
+	return ms
+}
+
+// cmdClosure lists, per property, what calleeClosure adds to the functions tagged with the property.
+func cmdClosure(args []string) int {
+	fs := flag.NewFlagSet("closure", flag.ExitOnError)
+	repo := fs.String("repo", "/repo", "")
+	verif := fs.String("verif", "/verif", "")
+	fs.Parse(args)
+	repoRoot = strings.TrimSuffix(*repo, "/")
+	cs := loadContracts(*repo, *verif)
+	pkgSet := map[string]bool{}
+	for _, k := range cs.SortedKeys() {
+		if !cs.ByKey[k].Extern {
+			pkgSet[pkgOfKey(k)] = true
+		}
+	}
+	var pats []string
+	for p := range pkgSet {
+		pats = append(pats, p)
+	}
+	sort.Strings(pats)
+	prog, err := LoadProgram(*repo, pats)
+	if err != nil {
+		fatalf("load: %v", err)
+	}
+	for n := 1; n <= 20; n++ {
+		prop := fmt.Sprintf("C%02d", n)
+		var sel []string
+		for _, k := range cs.SortedKeys() {
+			c := cs.ByKey[k]
+			if !c.Extern && c.HasProp(prop) {
+				sel = append(sel, k)
+			}
+		}
+		ms := calleeClosure(prog, cs, sel)
+		for i := range ms {
+			ms[i] = shortFn(ms[i])
+		}
+		fmt.Printf("%s %d: %s\n", prop, len(ms), strings.Join(ms, ", "))
+	}
+	return 0
 }
